@@ -9,10 +9,12 @@ LEAN_TARGETS = ["TornadoModel.C43.Props"]
 _T = "TornadoModel.C43."
 THEOREMS = [_T + n for n in [
     "requestLine_iff", "requestLine_error_kind", "statusLine_iff", "statusLine_error_kind",
-    "parseHeader_total", "parseHeader_plain_returns",
-    "splitHostPort_total", "splitHostPortOld_raises_iff",
+    "requestLine_rfc", "statusLine_rfc", "requestLine_oracle", "statusLine_oracle",
+    "parseHeader_total", "parseHeader_error_unmodelled", "parseHeader_not_uncaught", "parseHeader_plain_returns",
+    "splitHostPort_returns", "netlocMatch_digits", "pyInt_digits", "splitHostPort_total", "splitHostPortOld_raises_iff",
     "re_unescape_escape",
-    "valid_ip_spec", "valid_ip_rejects", "valid_ip_noname", "valid_ip_ascii",
+    "valid_ip_spec", "valid_ip_plain_resolver", "valid_ip_hostname", "hostName_not_plainIP",
+    "valid_ip_rejects", "valid_ip_noname", "valid_ip_ascii",
     "url_concat_none", "url_concat_nil_noquery",
     "param_roundtrip", "civil_roundtrip", "timestamp_roundtrip", "url_concat_preserves",
     "tuple_timestamp", "datetime_naive_roundtrip", "datetime_aware_roundtrip",
@@ -47,14 +49,28 @@ RULE = ("per-function generators built from each grammar (valid forms, boundary 
 EXHAUSTIVE = {"quick": False, "thorough": False}
 CLAUSES = {
     "request/response start-line parsers accept exactly the RFC 9112 grammar, HTTPInputError otherwise":
-        "requestLine_iff, requestLine_error_kind, statusLine_iff, statusLine_error_kind",
-    "header-parameter parser never raises": "parseHeader_total (every line, after fix 3c2aa7d: decode_params / charset exceptions on "
-        "malformed RFC 2231 parameters are caught and the undecoded parameter is kept), parseHeader_plain_returns (no RFC 2231 "
-        "parameter: a result, never `Unmodelled`); charsets naming codecs outside the model: tie only (oracle on every `header` case)",
+        "requestLine_iff, statusLine_iff (parser = free decomposition `a SP b SP c`), requestLine_rfc, statusLine_rfc (the same over "
+        "character classes written from the RFC text in SpecExt.lean, sharing nothing with the model: tchar, DIGIT, VCHAR, obs-text, "
+        "3DIGIT, reason-phrase), requestLine_error_kind, statusLine_error_kind; requestLine_oracle, statusLine_oracle (the brute-force "
+        "deciders the ORACLE applies to the implementation equal the model's parsers on every line).  NOT the full RFC grammar in two "
+        "deliberate, documented points of the code, which the spec follows: request-target is Tornado's relaxed 1*(VCHAR / obs-text) "
+        "(`_ABNF.request_target`: a superset of origin/absolute/authority/asterisk-form), and only HTTP major version 1 is accepted "
+        "(`HTTP/2.0 ...` is grammatical but refused).  _ABNF-vs-RFC for the other classes is what requestLine_rfc/statusLine_rfc state",
+    "header-parameter parser never raises": "parseHeader_total: for EVERY line the fixed _parse_header (3c2aa7d) RETURNS, or the value "
+        "of an RFC 2231 extended parameter went to a stdlib codec outside the model (`Unmodelled`) — no HTTPInputError, no other "
+        "exception on any modelled path (parseHeader_error_unmodelled; the weaker former statement is parseHeader_not_uncaught); "
+        "parseHeader_plain_returns (no RFC 2231 parameter: a result, never `Unmodelled`); codecs outside the model: tie only — the "
+        "oracle demands that _parse_header RETURNS (any exception, HTTPInputError included, is a violation) on every `header` and "
+        "`encode` case",
     "cookie parser never raises": "tie only: the model parseCookie is a total function without an error outcome; the oracle checks the implementation",
-    "host/port splitter never raises": "splitHostPort_total, splitHostPortOld_raises_iff (after fix 7eb1536)",
+    "host/port splitter never raises": "splitHostPort_returns: the model has an error outcome (pyInt = int() on group 2: ValueError "
+        "beyond 4300 digits, `Unmodelled` on text that is not \\d+; `except ValueError` catches only ValueError) and returns for every "
+        "string, because group 2 of _netloc_re is a non-empty run of \\d (netlocMatch_digits) on which int() returns or raises ValueError "
+        "(pyInt_digits; `int(chr(c))` is compared with the model's digit value for every \\d character on every run, case `tables`); "
+        "splitHostPort_total, splitHostPortOld_raises_iff (relation to the code before fix 7eb1536); re.match itself raising: tie only",
     "token-valued header parameters round-trip through encoding": "param_roundtrip (token key, sorted lower-case token names "
-        "not of RFC 2231 shape, token values); oracle on every `encode` case",
+        "not of RFC 2231 shape, token values); the oracle states _parse_header(_encode_header(k, d)) == (k, d) on the implementation "
+        "for every `encode` case in that domain (generator: tokens glued from `%`+hex pieces %0A %0a %0D %22 %25 % …, all tchar punctuation)",
     "HTTP timestamps round-trip through formatting and parsing": "timestamp_roundtrip (whole seconds, years 1970-9999), "
         "civil_roundtrip (days <-> civil date), tuple_timestamp (gmtime tuple = int), datetime_naive_roundtrip (naive datetime "
         "= UTC, no time-zone input), datetime_aware_roundtrip (any whole-second utcoffset); oracle on every `ts` case and, for "
@@ -63,7 +79,12 @@ CLAUSES = {
         "url_concat_preserves (text without lone surrogates), url_concat_none, url_concat_nil_noquery; oracle on every `url` case",
     "re_unescape inverts re.escape": "re_unescape_escape",
     "is_valid_ip accepts plain IPv4/IPv6, rejects host names, empty strings, NUL":
-        "valid_ip_spec, valid_ip_rejects, valid_ip_noname, valid_ip_ascii; host names rejected by the resolver: getaddrinfo contract, tie only",
+        "proved outright: valid_ip_rejects (empty / NUL, any resolver), valid_ip_ascii, valid_ip_plain_resolver (on Spec.plainIP text the "
+        "pre-checks pass and the answer IS the resolver's verdict), hostName_not_plainIP.  Relative to the ASSUMED contract of "
+        "getaddrinfo(AI_NUMERICHOST) (hypotheses, not proved): valid_ip_spec (plain address text resolves => accepted), valid_ip_hostname "
+        "(Spec.hostName gives EAI_NONAME => rejected; valid_ip_noname is its one-step core).  Both halves are tie only as far as the "
+        "resolver is concerned: the oracle checks accept-plainIP and reject-hostName (Lean Spec via the driver) on the implementation "
+        "with the real resolver on every `ip` case",
 }
 PARALLEL = True
 CASE_TIMEOUT = 120   # pure functions: only a runaway mutant gets here; generous because the pool may be starved on a loaded machine
@@ -175,7 +196,53 @@ def _domain_header(s):
     return all(ord(ch) < 128 or ch.lower() == ch for ch in s)
 
 
+# pieces a token is glued from: `%` followed by 0/1/2 hex digits in both cases (the WHATWG multipart escapes %0A %0D %22 and
+# their lower-case / neighbouring forms, %25 = an escaped `%`, a bare or trailing `%`), the other tchar punctuation, and plain text
+PCT_PIECES = ["%0A", "%0a", "%0D", "%0d", "%22", "%25", "%", "%%", "%2", "%0", "%20", "%5C", "%5c", "%3B", "%3D", "%00", "%7F", "%C3%A9",
+              "%2522", "%0A%0D", "%0D%0A", "%2F", "%27", "%2A", "%21", "%23", "%0B", "%0C", "%1A", "%A0", "%AD", "%zz", "%G0"]
+TOK_PIECES = ["a", "b", "x", "0", "A", "0A", "22", "50", "off", ".txt", "a.b", "-", "_", "~", "!", "#", "$", "&", "'", "*", "+", "^", "`", "|",
+              "utf-8", "15", "----x"]
+HEX = "0123456789abcdefABCDEF"
+
+
+def _pct_token(rng):
+    """a token (tchar+) dense in percent sequences"""
+    out = []
+    for _ in range(rng.randint(1, 4)):
+        r = rng.random()
+        if r < 0.45:
+            out.append(rng.choice(PCT_PIECES))
+        elif r < 0.6:
+            out.append("%" + rng.choice(HEX) + rng.choice(HEX))
+        elif r < 0.9:
+            out.append(rng.choice(TOK_PIECES))
+        else:
+            out.append(_rs(rng, TCH + "%%", 1, 3))
+    return "".join(out)
+
+
+def g_encode_token(rng):
+    """token key, distinct lower-case token names, token values: the domain of the round-trip clause.  Values and (less often)
+    names / the key are built from percent-aware pieces and the whole tchar alphabet."""
+    key = rng.choice(["permessage-deflate", "form-data", "attachment", "multipart/form-data", "k", "a/b", "x-ext", "K", "50%", "a%22b",
+                      _pct_token(rng)])
+    d = {}
+    for _ in range(rng.randint(1, 4)):
+        r = rng.random()
+        if r < 0.6:
+            n = rng.choice(["p", "filename", "name", "boundary", "note", "size", "charset", "q", "client_max_window_bits", "a-b", "z9"])
+        elif r < 0.8:
+            n = rng.choice(["%22", "a%0a", "%", "p%25", "!#$&'+-.^_`|~", "a'b", "~", "a.b", "0", "*x", "a*b", "a**", "*"])
+        else:
+            n = _pct_token(rng).lower()
+        v = _pct_token(rng) if rng.random() < 0.85 else rng.choice(TOK_PIECES + ["!#$%&'*+-.^_`|~", "a*", "*", "a*0", "utf-8''x", "x'y'z"])
+        d[n] = v
+    return {"key": key, "items": [[k, v] for k, v in d.items()]}
+
+
 def g_encode(rng):
+    if rng.random() < 0.45:
+        return g_encode_token(rng)
     key = rng.choice(["permessage-deflate", "form-data", "k", "a/b", "x;y", " k", "K"])
     names = ["a", "b", "client_max_window_bits", "z9", "a-b", "ab", "A", "a*", "b*0", "a b", "", "x'y", "~", "a.b"]
     vals = ["15", "x", "a.b", "tok~", "A", "x y", "\"q\"", "", "a;b", "a=b", "<x>", "'", "*", "\xe9", None, 7]
@@ -206,8 +273,21 @@ def g_cookie(rng):
     return _mutate(rng, s) if k > 0.85 else s
 
 
+_ND = []
+
+
+def _nd_port(rng):
+    """1-6 characters of Unicode category Nd (what `\\d` matches), scripts mixed freely: int() must take all of them"""
+    if not _ND:
+        import unicodedata
+        _ND.extend(c for c in range(0x110000) if unicodedata.category(chr(c)) == "Nd")
+    return "".join(chr(rng.choice(_ND)) if rng.random() < 0.7 else rng.choice("0189") for _ in range(rng.randint(1, 6)))
+
+
 def g_hostport(rng):
     k = rng.random()
+    if k < 0.12:
+        return rng.choice(["h", "[::1]", "\xe9", "a:b"]) + ":" + _nd_port(rng) + rng.choice(["", "", "\n"])
     host = rng.choice(["h", "example.com", "[::1]", "::1", "a:b", "", "h\n", "h\r", "\xe9", "a\nb", " h", "1.2.3.4", ":"])
     port = rng.choice(["80", "8080", "0", "65536", "00080", "\u0668\u0660", "8\u0660", "\uff18", "\U0001d7d0\U0001d7ff", "", "8a",
                        "-1", "+1", " 80", "80 ", "1_0", "\u00b2", "\u2460", "\u0c78", "9" * 4299, "9" * 4300, "9" * 4301,
@@ -362,6 +442,11 @@ def gen_cases(rng, tier):
     yield {"fn": "tables"}
     for w in ["h:" + "9" * 4301, "h:" + "9" * 4300, "a; x*1=a; x*=b", "form-data; name=\"\\\"x\\\"\"", "a; file*=utf-8''a%22b"]:
         yield {"fn": "hostport" if w.startswith("h:") else "header", "s": w}
+    # the percent neighbourhood of the round-trip clause, the same on every seed: each sequence alone / leading / trailing / inside
+    for q in ["%0A", "%0a", "%0D", "%0d", "%22", "%25", "%", "%%", "%2", "%20", "%5C", "%00", "%0D%0A", "%2522"]:
+        for v in (q, q + "b", "a" + q, "a" + q + "b.txt"):
+            yield {"fn": "encode", "key": "x-ext", "items": [["p", v]]}
+        yield {"fn": "encode", "key": "a" + q, "items": [["n" + q.lower(), "v"], ["size", "10"]]}
     # every zone x a few instants (winter / summer / epoch / end of range), all input kinds: the same on every seed
     for tz in ZONES:
         for ts in (1359312200, 1373000000, 0, 253402300799):
@@ -554,9 +639,13 @@ def run_impl(case):
             nds = set(nd)
             starts = sorted(c for c in nd if all((c + i) in nds and unicodedata.digit(chr(c + i), -1) == i for i in range(10)))
             ok = sorted(c + i for c in starts for i in range(10)) == nd
+            try:      # int() accepts every \d character with the digit value the model gives it (pyInt / ndInt), alone and after a digit
+                int_ok = all(int(chr(c + i)) == i and int("1" + chr(c + i)) == 10 + i for c in starts for i in range(10))
+            except ValueError:
+                int_ok = False
             sp = [c for c in range(0x110000) if chr(c).isspace()]
             return {"r": [starts, sp], "nd_blocks_cover": ok, "maxdigits": sys.get_int_max_str_digits(),
-                    "strip_same": "".join(map(chr, sp)).strip() == ""}
+                    "strip_same": "".join(map(chr, sp)).strip() == "", "int_ok": int_ok}
     except Exception as e:
         return {"r": _exc(e)}
     raise AssertionError(fn)
@@ -654,7 +743,7 @@ def model_result(case, replies):
                 _SKIP.add(_key(case) + "#%d" % i)
         return {"r": r, "back": [v for v in firsts if not isinstance(v, str)]}
     if fn == "tables":
-        return {"r": vals[0]}
+        return {"r": vals[0], "env": [True, True, True, 4300]}
     if fn == "re" and case["mode"] == "escape":
         return {"r": vals[0][0]}
     return {"r": vals[0][0]}
@@ -680,7 +769,7 @@ def impl_view(case, impl):
         return {"r": ["Unmodelled" if (k + "#%d" % i) in _SKIP else s for i, (_, s, _) in enumerate(impl["r"])],
                 "back": [backs[s] for s in _tsz_strings(impl)]}
     if fn == "tables":
-        return {"r": impl["r"]}
+        return {"r": impl["r"], "env": [impl.get("nd_blocks_cover"), impl.get("strip_same"), impl.get("int_ok"), impl.get("maxdigits")]}
     return {"r": impl["r"]}
 
 
@@ -730,8 +819,8 @@ def spec_violation(case, impl, replies):
             return "%s: RFC 9112 grammar says %r, parser gave %r" % (fn, want, r)
         return None
     if fn == "header":
-        if unc:
-            return "_parse_header raised %s" % r[9:]
+        if isinstance(r, str):      # "never raises": HTTPInputError is an exception too (r is a list whenever the parser returned)
+            return "_parse_header raised %s" % (r[9:] if unc else r)
         if isinstance(impl.get("parts"), str):
             return "_parseparam raised %s" % impl["parts"]
         return None
@@ -745,12 +834,15 @@ def spec_violation(case, impl, replies):
         items = case["items"]
         token_valued = (_TOKEN.match(case["key"]) and all(_LCTOKEN.match(k) and not _CONT.match(k) and isinstance(v, str)
                         and _TOKEN.match(v) for k, v in items))
+        back = impl.get("back")
+        if isinstance(back, str):   # never raises, whatever was encoded (any exception type, HTTPInputError included)
+            return "_parse_header raised %s" % (back[9:] if back.startswith("Uncaught:") else back)
         if token_valued:
-            want = [case["key"], sorted([k, v] for k, v in items)]
-            if impl["back"] != want:
-                return "param round trip: _parse_header(_encode_header(k, d)) = %r, expected %r" % (impl["back"], want)
-        elif isinstance(impl.get("back"), str) and impl["back"].startswith("Uncaught"):
-            return "_parse_header raised %s" % impl["back"][9:]
+            # the clause itself, on the implementation: _parse_header(_encode_header(k, d)) == (k, d)   (dict equality)
+            d = dict((k, v) for k, v in items)
+            if not (isinstance(back, list) and back[0] == case["key"] and len(back[1]) == len(d)
+                    and dict((a, b) for a, b in back[1]) == d):
+                return "param round trip: _parse_header(_encode_header(k, d)) = %r, expected %r" % (back, [case["key"], sorted(d.items())])
         return None
     if fn == "re":
         if case["mode"] == "escape":
@@ -758,7 +850,7 @@ def spec_violation(case, impl, replies):
                 return "re_unescape(re.escape(s)) = %r" % (impl.get("back", r),)
         return None
     if fn == "ip":
-        v4, v6 = _py(replies[0])
+        v4, v6, hostname = _py(replies[0])
         s = case["s"]
         if unc:
             return "is_valid_ip raised %s" % r
@@ -766,7 +858,7 @@ def spec_violation(case, impl, replies):
             return "is_valid_ip rejected the plain address %r" % s
         if (s == "" or "\x00" in s) and r is not False:
             return "is_valid_ip accepted an empty/NUL string"
-        if _HOSTNAME.match(s) and ":" not in s and r is not False:
+        if hostname and r is not False:
             return "is_valid_ip accepted the host name %r" % s
         if r is True and not s.isascii():
             return "is_valid_ip accepted the non-ASCII string %r (not an address literal)" % s
